@@ -77,6 +77,9 @@ class C13(Prop):
             dayset = {self.members[d] for d in days}
             for sm in grid:
                 start = f"{sm // 60:02d}:{sm % 60:02d}"
+                if sm < 600 and (sm + len(days)) % 5 == 2:
+                    start = f"{sm // 60}:{sm % 60:02d}"        # "9:30": the hour as people type it (accepted like "09:30")
+                    acc.count("starts_spelled_with_a_one_digit_hour")
                 acc.ev()
                 # the selected days in whatever collection the caller happens to hold them, positionally or by name
                 form = (sm + len(days) * 7 + sum(days)) % 8
